@@ -668,13 +668,15 @@ def pre_case():
         st.lists(muts, min_size=2, max_size=2),  # mutations of the method-specific messages
         st.booleans(),  # blocking API
         st.sampled_from([None, b"kex-strict-s-v00@openssh.com", b"kex-strict-c-v00@openssh.com", b"ext-info-c", b"ext-info-s"]),
-        st.sampled_from(["none", "newkeys", "garbage", "extra"]),
+        st.sampled_from(["none", "newkeys", "garbage", "extra", "disconnect", "disconnect-first"]),
     )
 
 
 def build_pre(c):
     role, bi, kex, hk, kmuts, mmuts, blocking, strict, tail = c
     script = [BANNERS[bi]]
+    if tail == "disconnect-first":
+        script.append(frame(peers.m_disconnect(2, b"go away")))
     script.append(frame(mutate(20, kexinit_fields(kex, hk, strict=strict), kmuts)))
     parts = client_kex_reply_fields(kex, hk) if role == "client" else server_kex_init_fields(kex)
     for i, (t, f) in enumerate(parts):
@@ -682,6 +684,8 @@ def build_pre(c):
     if tail == "newkeys":
         script.append(frame(bytes([21])))
         script.append(b"\x00\x00\x00\x1c" + b"\x55" * 64)
+    elif tail == "disconnect":
+        script.append(frame(peers.m_disconnect(11, b"bye \xff")))
     elif tail == "garbage":
         script.append(b"\xff" * 40)
     elif tail == "extra":
